@@ -26,6 +26,7 @@ META = dict(
 
 MCQ = {"Writers": ["w1", "w2"], "Readers": ["r"], "InitPacks": 2, "MaxCommits": 1, "MaxPacks": 2, "MaxCrashes": 0}
 MCT = {"Writers": ["w1", "w2"], "Readers": [], "InitPacks": 1, "MaxCommits": 2, "MaxPacks": 2, "MaxCrashes": 0}
+MCP = {"Writers": ["w1"], "Readers": [], "Packers": ["k"], "InitPacks": 2, "MaxCommits": 2, "MaxPacks": 9, "MaxCrashes": 0}
 INV = ("TypeOK", "ListedPresent", "NoLoss", "NoLatched", "VisibleWhole")
 _TPL = {}
 
@@ -53,13 +54,17 @@ def run_scenarios(sub, chunk):
     by = {}
     for sc in chunk:
         tpl = template(sc["fmt"], sc["init"], sc["writers"])
-        pw = pc.PackWorld(sub, tpl, sc["writers"], sc["readers"], sc["commits"], sc["init"], disk=sc.get("disk", False))
+        pw = pc.PackWorld(sub, tpl, sc["writers"], sc["readers"], sc["commits"], sc["init"], disk=sc.get("disk", False),
+                          packers=sc.get("packers", ()), held=sc.get("held", False))
         sched_ = []
         try:
             import random
             rng = random.Random(sc["seed"])
             seedp = list(sc.get("pids") or [])
             n = 0
+            # half of the random schedules switch at every boundary operation, half let a process run a burst
+            bursty = rng.random() < 0.5
+            cur, left = None, 0
             while pw.live() and n < 5000:
                 live = pw.live()
                 p = None
@@ -67,13 +72,16 @@ def run_scenarios(sub, chunk):
                     c = seedp.pop(0)
                     if c in live:
                         p = c
+                if p is None and bursty and cur in live and left > 0:
+                    p, left = cur, left - 1
                 if p is None:
                     p = rng.choice(live)
+                    cur, left = p, rng.choice((0, 1, 2, 4, 6, 10, 16, 30))
                 sched_.append(p)
                 pw.step(p)
                 n += 1
             rep = {"scenario": {k: v for k, v in sc.items() if k != "pids"}, "schedule": "".join(
-                {"w1": "a", "w2": "b", "w3": "c", "r": "r"}.get(x, "?") for x in sched_)}
+                {"w1": "a", "w2": "b", "w3": "c", "r": "r", "k": "k"}.get(x, "?") for x in sched_)}
             for p in pw.w.procs:
                 res = pw.w.result(p)
                 if res is None or res[0] != "ok":
@@ -81,7 +89,8 @@ def run_scenarios(sub, chunk):
             for prob in pw.fresh_check(deep=sc.get("deep", False)):
                 sub.violation("fresh-open:" + prob.split(":")[0], prob, rep)
             tr = pc.trace_of(pw)
-            by.setdefault((tuple(sc["writers"]), tuple(sc["readers"]), sc["init"], sc["commits"]), []).append((tr, rep))
+            by.setdefault((tuple(sc["writers"]), tuple(sc["readers"]), sc["init"], sc["commits"], tuple(sc.get("packers", ()))),
+                          []).append((tr, rep))
             sub.count(1)
             if any(e["kind"] == "publish" and e.get("auto") for e in tr) or len({e["p"] for e in tr}) > 1:
                 sub.nontrivial(rep["schedule"] + str(sc["seed"]))
@@ -100,8 +109,9 @@ def validate_collected(ctx):
         by.setdefault(json.dumps(k), []).append((tr, rep))
     ctx.collected = []
     for k, items in by.items():
-        ws, rs, ip, mc = json.loads(k)
-        params = {"Writers": list(ws), "Readers": list(rs), "InitPacks": ip, "MaxCommits": mc, "MaxPacks": 99, "MaxCrashes": 0}
+        ws, rs, ip, mc, ks = json.loads(k)
+        params = {"Writers": list(ws), "Readers": list(rs), "Packers": list(ks), "InitPacks": ip, "MaxCommits": mc,
+                  "MaxPacks": 99, "MaxCrashes": 0}
         acc, rej = pc.validate_traces(ctx, params, [t for t, _ in items])
         ctx.count(0, traces=len(items))
         for tid, viol in acc.items():
@@ -133,6 +143,7 @@ def run(ctx):
     tlc.check(ctx, "PackCollMC", cfg_text=pc.cfg_text(MCQ, "Spec", INV), label="MC 2 writers + reader, 1 commit each, autopack race")
     for w in ("WitnessAutopackRace", "WitnessBothCommitted"):
         tlc.check(ctx, "PackCollMC", cfg_text=pc.cfg_text(MCQ, "Spec", (w,)), expect_violation=w, label="witness " + w)
+    tlc.check(ctx, "PackCollMC", cfg_text=pc.cfg_text(MCP, "Spec", INV), label="MC writer x 2 commits + packer x 2 pack()")
     if not ctx.quick:
         tlc.check(ctx, "PackCollMC", cfg_text=pc.cfg_text(MCT, "Spec", INV), label="MC 2 writers x 2 commits", timeout=1800)
     # ---- schedules: TLC-seeded + random, on the real code
@@ -151,6 +162,10 @@ def run(ctx):
     for i in range(16 if ctx.quick else 300):
         jobs.append({"fmt": "2a", "init": 2, "writers": ["w1", "w2"], "readers": ["r"], "commits": 2,
                      "seed": ctx.seed * 31 + i})
+    # a process running pack() against two committing writers (reload_pack_names / RetryPackOperations paths)
+    for i in range(48 if ctx.quick else 600):
+        jobs.append({"fmt": "2a", "init": 2, "writers": ["w1", "w2"], "readers": [], "packers": ["k"], "commits": 2,
+                     "seed": ctx.seed * 37 + i, "held": i % 3 != 0})
     if not ctx.quick:
         for i in range(200):
             jobs.append({"fmt": "2a", "init": 8, "writers": ["w1", "w2", "w3"], "readers": [], "commits": 1,
